@@ -812,6 +812,14 @@ class Runner:
         self.outcome = "maxrounds"
 
 
+def other_entity_configures_fault_handlers(table: dict[str, str]) -> RecFaultHandler:
+    """Another entity in the same process sets up its *own* fault handler object (it must not influence anybody else's)."""
+    fh = RecFaultHandler(EventLog(), "X")
+    for cond, code in table.items():
+        fh.set_handler(ConditionCode[cond], FHC[code])
+    return fh
+
+
 def finished_events(w: World, side: str) -> list:
     return w.log.of("ind_finished", side)
 
